@@ -37,7 +37,7 @@ impl Wake for WakeRec {
 }
 
 thread_local! {
-    static REGISTRY: RefCell<Vec<(Waker, Arc<WakeRec>)>> = const { RefCell::new(Vec::new()) };
+    static REGISTRY: RefCell<Vec<Arc<WakeRec>>> = const { RefCell::new(Vec::new()) };
 }
 
 /// A fresh identified waker, remembered in the thread's registry so that
@@ -48,18 +48,42 @@ pub fn new_waker(id: u64) -> (Waker, Arc<WakeRec>) {
         wakes: AtomicU64::new(0),
     });
     let waker = Waker::from(rec.clone());
-    REGISTRY.with(|r| r.borrow_mut().push((waker.clone(), rec.clone())));
+    REGISTRY.with(|r| r.borrow_mut().push(rec.clone()));
     (waker, rec)
+}
+
+/// Is `w` (a clone of) the waker that belongs to `rec`? Decided by waking it
+/// by reference and undoing the count: `Waker::will_wake` may answer false for
+/// clones (vtable addresses are not guaranteed unique; it does under Miri).
+pub fn is_waker_of(w: &Waker, rec: &Arc<WakeRec>) -> bool {
+    REGISTRY.with(|r| {
+        let r = r.borrow();
+        let before: Vec<u64> = r.iter().map(|x| x.wakes()).collect();
+        w.wake_by_ref();
+        let mut hit = false;
+        for (x, b) in r.iter().zip(before) {
+            if x.wakes() == b + 1 {
+                x.wakes.fetch_sub(1, Ordering::SeqCst);
+                hit = hit || Arc::ptr_eq(x, rec);
+            }
+        }
+        hit
+    })
 }
 
 /// Identity of a waker created by [`new_waker`] on this thread (clones included).
 pub fn waker_id(w: &Waker) -> Option<u64> {
     REGISTRY.with(|r| {
-        r.borrow()
-            .iter()
-            .rev()
-            .find(|(k, _)| k.will_wake(w))
-            .map(|(_, rec)| rec.id)
+        let r = r.borrow();
+        let before: Vec<u64> = r.iter().map(|x| x.wakes()).collect();
+        w.wake_by_ref();
+        for (rec, b) in r.iter().zip(before) {
+            if rec.wakes() == b + 1 {
+                rec.wakes.fetch_sub(1, Ordering::SeqCst);
+                return Some(rec.id);
+            }
+        }
+        None
     })
 }
 
